@@ -120,6 +120,21 @@ func (p *regExpParser) scanGroup() {
 
 // [...].
 func (p *regExpParser) scanBracket() {
+	// [] matches nothing and [^] matches everything in JavaScript,
+	// in re2 the ] would be the first member of the class.
+	if p.chr == ']' || (p.chr == '^' && p.offset < p.length && p.str[p.offset] == ']') {
+		class := "[^\\x00-\\x{10FFFF}]"
+		if p.chr == '^' {
+			class = "[\\x00-\\x{10FFFF}]"
+			p.read()
+		}
+		p.goRegexp.Truncate(p.goRegexp.Len() - 1) // The [ already passed
+		if _, err := p.goRegexp.WriteString(class); err != nil {
+			p.errors = append(p.errors, err)
+		}
+		p.read()
+		return
+	}
 	for p.chr != -1 {
 		if p.chr == ']' {
 			break
